@@ -259,12 +259,59 @@ def run_large(cases):
     return p
 
 
+def run_under_operator(args):
+    """bitmap structures with 201 / 202 / 207 / 208 / a 203 definition in force (or cancelled) at the markers: outside what the
+    reference model judges, so differential -- the encoder with template compilation must write the bytes the plain one writes"""
+    from mc.checks import c08
+    import contextlib, io
+    structs, env = args
+    p = Partial()
+    st = tree.Stats()
+    for name, descs, queues, free in structs:
+        def body(ctx, descs=descs, queues=queues, free=free):
+            try:
+                b, spec, subs, notes = S.build_distinct_message(ctx, descs, nsub=env['nsub'], compressed=env['compressed'],
+                                                                queues=queues, free=free, variant_of_subset=[0] * env['nsub'])
+            except (codec.RefError, ValueError):
+                return {'skip': 1}
+            port = codec.encode.last_port
+            fj = message.flat_json(spec, CC.impl_input_values(subs, port, env['compressed']))
+            outs = []
+            for enc in (CC.encoder(), CC.compiled_encoder(), CC.compiled_encoder()):
+                with contextlib.redirect_stderr(io.StringIO()):
+                    try:
+                        outs.append(enc.process(fj, wire_template_data=False).serialized_bytes)
+                    except Exception as e:
+                        outs.append('EXC ' + type(e).__name__)
+            return {'outs': outs}
+        def on_leaf(ctx, res, name=name, descs=descs, queues=queues, free=free):
+            p.n['exec'] += 1
+            if 'skip' in res:
+                p.n['envelope_skipped'] += 1
+                return
+            o = res['outs']
+            p.outcome((name.rsplit('+', 1)[1], isinstance(o[0], str), env['compressed']))
+            if o[1] != o[0] or o[2] != o[0]:
+                p.violation('compiled-encoder-differs|under-%s' % name.rsplit('+', 1)[1],
+                            {'struct': [name, descs, queues, free], 'env': env, 'choices': ctx.vector()},
+                            'plain encoder: %s; with template compilation: %s (first run), %s (cached)'
+                            % tuple(x if isinstance(x, str) else x.hex()[-40:] for x in o))
+        tree.explore(body, 0, on_leaf, st)
+    p.n['nodes'] += st.nodes
+    p.n['edges'] += st.edges
+    return p
+
+
 def replay(part, case):
     if part.startswith('tree'):
         return CC.replay_tree(case)
     if part == 'tableB':
         o, d = sweep_case(case)
         return [{'sig': d[0], 'detail': d[1]}] if d else []
+    if part.startswith('under-operator'):
+        s_ = case['struct']
+        p = run_under_operator(([(s_[0], s_[1], [[tuple(x) for x in q] for q in s_[2]], s_[3])], case['env']))
+        return [{'sig': v['sig'], 'detail': v['detail']} for v in p.viol]
     if part == 'large':
         p = run_large([tuple(case['case'])])
         return [{'sig': v['sig'], 'detail': v['detail']} for v in p.viol if v['case']['encoder'] == case['encoder']]
@@ -332,6 +379,13 @@ def main(tier, seed):
     p.n['nodes'], p.n['edges'] = len(cases) + 1, len(cases)
     p.sample(cases[5])
     rep.add_part('fxy', p, bounds={'cases': len(cases)})
+    from mc.checks import c08 as _c08
+    uo = [st for st in _c08.under_operator_structs(1 if tier == 'quick' else 2) if '+204' not in st[0]]
+    for pname, env in (('under-operator-u1', dict(nsub=1, compressed=False)), ('under-operator-c2', dict(nsub=2, compressed=True))):
+        p = merge_all(run_shards(run_under_operator, [(s_, env) for s_ in split(uo, 64)]))
+        rep.add_part(pname, p, bounds=dict(structures=len(uo), **env),
+                     rule='differential: plain encoder vs encoder with template compilation (first and cached run) on bitmap structures '
+                          'with 201 / 202 / 207 / 208 / 203 in force or cancelled at the markers (204 at markers: known finding of C08)')
     from mc.checks import c01 as _c01
     lc = _c01.large_cases(tier)
     p = merge_all(run_shards(run_large, [[c] for c in lc]))
